@@ -16,24 +16,21 @@ Rank(prefix, rules, row) ==
   ELSE IF N # {} THEN 0 - (CHOOSE i \in N : \A j \in N : i <= j)
   ELSE 0
 Ambiguous(prefix, rules, row) == Cardinality(DirectIdx(rules, row) \cup NegIdx(prefix, rules, row)) > 1
-\* ordering rules governing the children of a row: kids of its rule + %global rules inherited
-\* rules of a level in text order (its %global entries included), then the %global entries inherited from above; where an inherited
-\* entry ranks relative to the level's own rules is not fixed by the property: no claim is made across the two groups
-OrdVisible(loc, glo) == loc \o glo
-OrdKids(prefix, vis, row) ==
-  LET r == Rank(prefix, vis, row) IN IF r = 0 THEN <<>> ELSE vis[IF r > 0 THEN r ELSE 0 - r].kids
-OrdDown(loc, glo) == SelectSeq(loc, LAMBDA r : r.glob) \o glo
+(* Ordering rules that govern the children of a row.  A level's rules are one sequence `vis` in TEXT order.  Below a row, the rules are
+   again in text order: every %global entry of `vis` stays where it was declared, and the children of the rule that ranks the row are
+   spliced in at that rule's position.  So a %global entry declared before a block rule ranks before the block's own child rules, one
+   declared after it ranks after them ("a command matched by an earlier rule comes before one matched by a later rule" reads the
+   rule text top to bottom at every depth).  An unranked row hands down the %global entries only.                                  *)
+Splice(vis, k) == FlatSeq([i \in DOMAIN vis |-> (IF vis[i].glob THEN <<vis[i]>> ELSE <<>>) \o (IF i = k THEN vis[i].kids ELSE <<>>)])
+OrdKids(prefix, vis, row) == LET r == Rank(prefix, vis, row) IN Splice(vis, IF r > 0 THEN r ELSE 0 - r)
 
 (* items: Seq([row, block, kids]) as in DeploySession.  "ok" or the first violated clause, at every depth. *)
-RECURSIVE RankOrdered(_, _, _, _)
-RankOrdered(prefix, items, loc, glo) ==
-  LET vis == OrdVisible(loc, glo)
-      rk(i) == Rank(prefix, vis, items[i].row)
-      abs(x) == IF x < 0 THEN 0 - x ELSE x
-      own(i) == abs(rk(i)) <= Len(loc)
-      bad == {i \in DOMAIN items : \E j \in DOMAIN items : i < j /\ rk(i) # 0 /\ rk(j) # 0 /\ rk(j) < rk(i) /\ own(i) = own(j)
+RECURSIVE RankOrdered(_, _, _)
+RankOrdered(prefix, items, vis) ==
+  LET rk(i) == Rank(prefix, vis, items[i].row)
+      bad == {i \in DOMAIN items : \E j \in DOMAIN items : i < j /\ rk(i) # 0 /\ rk(j) # 0 /\ rk(j) < rk(i)
                                                                /\ ~Ambiguous(prefix, vis, items[i].row) /\ ~Ambiguous(prefix, vis, items[j].row)}
-      kidbad == {i \in DOMAIN items : RankOrdered(prefix, items[i].kids, OrdKids(prefix, vis, items[i].row), OrdDown(loc, glo)) # "ok"}
+      kidbad == {i \in DOMAIN items : RankOrdered(prefix, items[i].kids, OrdKids(prefix, vis, items[i].row)) # "ok"}
   IN IF bad # {} THEN "later-rule-before-earlier-rule"
      ELSE IF kidbad # {} THEN "later-rule-before-earlier-rule"
      ELSE "ok"
@@ -53,15 +50,14 @@ BagI(items) == LET E == {<<items[i].row, items[i].block, BagI(items[i].kids)>> :
                {<<e, Cardinality({i \in DOMAIN items : <<items[i].row, items[i].block, BagI(items[i].kids)>> = e})>> : e \in E}
 
 \* config trees (order_config): rows no rule mentions keep their relative order
-RECURSIVE UnrankedStable(_, _, _, _, _)
-UnrankedStable(prefix, inp, out, loc, glo) ==
-  LET vis == OrdVisible(loc, glo)
-      \* Reading: unmentioned rows keep their relative order among rows of the same polarity; an unmentioned row that itself starts
+RECURSIVE UnrankedStable(_, _, _, _)
+UnrankedStable(prefix, inp, out, vis) ==
+  LET \* Reading: unmentioned rows keep their relative order among rows of the same polarity; an unmentioned row that itself starts
       \* with the negation word is a "removal" for the orderer and goes in front of the unmentioned plain rows (as in patches).
       neg(r) == Len(r) > 1 /\ r[1] = prefix
       un(t, b) == SelectSeq([i \in DOMAIN t |-> t[i].row], LAMBDA r : Rank(prefix, vis, r) = 0 /\ neg(r) = b)
   IN /\ un(inp, TRUE) = un(out, TRUE) /\ un(inp, FALSE) = un(out, FALSE)
-     /\ \A i \in DOMAIN inp : UnrankedStable(prefix, inp[i].kids, KidsOf(out, inp[i].row), OrdKids(prefix, vis, inp[i].row), OrdDown(loc, glo))
+     /\ \A i \in DOMAIN inp : UnrankedStable(prefix, inp[i].kids, KidsOf(out, inp[i].row), OrdKids(prefix, vis, inp[i].row))
 RECURSIVE AsItems(_)
 AsItems(t) == [i \in DOMAIN t |-> [row |-> t[i].row, block |-> t[i].kids # <<>>, kids |-> AsItems(t[i].kids)]]
 =============================================================================
